@@ -153,6 +153,23 @@ func VerifTwoEncodings() {
 		}
 		verifAssert(found, "every protobuf cell has a cellblock counterpart")
 	}
+	// serialising again (a retry, a re-batch) denotes the same cells again
+	preq2, _, _ := m.toProto(false, nil)
+	n2 := 0
+	for _, cv := range preq2.Mutation.ColumnValue {
+		for _, qv := range cv.QualifierValue {
+			n2++
+			found := false
+			for _, w := range want {
+				if vEq(w.fam, cv.Family) && vEq(w.qual, qv.Qualifier) {
+					found = true
+					verifAssert(w.typ == vDeleteKind(qv.DeleteType), "a second serialisation keeps the put/delete kinds")
+				}
+			}
+			verifAssert(found, "a second serialisation denotes the same cells")
+		}
+	}
+	verifAssert(n2 == len(want), "a second serialisation denotes the same number of cells")
 	// both forms address the same row, mutation type, timestamp and durability
 	verifAssert(vEq(preq.Mutation.Row, creq.Mutation.Row) && *preq.Mutation.MutateType == *creq.Mutation.MutateType,
 		"same row and mutation type")
